@@ -37,6 +37,10 @@ def run_check(prop: str, tier: str, root: str | None = None, quiet: bool = False
     except ModuleNotFoundError:
         print(f"ANALYSIS-ERROR property={prop} no rules implemented for this property")
         return 2
+    except Exception as e:  # a broken rule module is a broken checker, never a violation
+        traceback.print_exc()
+        print(f"ANALYSIS-ERROR property={prop} rule module does not load: {type(e).__name__}: {e}")
+        return 2
     try:
         rep = analyse(prop, tier, root)
         if tier == "thorough" and root is None:
